@@ -78,7 +78,7 @@ def zero_width(env, mod, t, codec, depth=0):
     if k in ('BIT STRING', 'OCTET STRING') or k in STRING_KINDS:
         return r.size is not None and not r.size.ext and r.size.hi == 0
     if k in ('SEQUENCE', 'SET'):
-        if env.is_extensible(r):
+        if b.ext is not None:       # (EXTENSIBILITY IMPLIED is not counted: it is not applied to list elements, see KNOWN_FINDINGS)
             return False
         cs = all_comps(b)
         if any(c.optional or c.has_default for c in cs):
@@ -86,7 +86,7 @@ def zero_width(env, mod, t, codec, depth=0):
         return all(zero_width(env, r.mod, c.t, codec, depth + 1) for c in cs)
     if k == 'CHOICE':
         cs = all_comps(b)
-        return per and not env.is_extensible(r) and len(cs) == 1 and zero_width(env, r.mod, cs[0].t, codec, depth + 1)
+        return per and b.ext is None and len(cs) == 1 and zero_width(env, r.mod, cs[0].t, codec, depth + 1)
     if k in ('SEQUENCE OF', 'SET OF'):
         if r.size is not None and not r.size.ext and r.size.hi == 0:
             return True
